@@ -69,6 +69,7 @@ struct GridGen {
             for (int i = 0; i < n; i++) { IPt p; int tries = 0; do { p = rpt(); } while (!ps.empty() && p == ps.back() && ++tries < 10); ps.push_back(p); }
             if (mode >= 90 && ps.size() >= 3) { ps.push_back(ps[0]); cnt("line_closed"); }
         }
+        vary(ps, false);
         bool allEq = true; for (auto& p : ps) if (!(p == ps[0])) allEq = false;
         if (allEq) { ps.resize(2); ps[1] = IPt{ps[0].x + 1, ps[0].y}; }
         e.rings.push_back(ps); return e; }
@@ -82,7 +83,32 @@ struct GridGen {
         for (size_t i = p.size() - 1, t = k + 1; i > 0; i--) { while (k >= t && cross(hl[k - 2], hl[k - 1], p[i - 1]) <= 0) k--; hl[k++] = p[i - 1]; }
         hl.resize(k); if (hl.size() < 4) return {}; return hl; }    // closed (first == last)
 
-    std::vector<IPt> ring() {
+    // exact point-in-ring on the lattice: 1 inside, 0 on the ring, -1 outside
+    static int locate(const std::vector<IPt>& rg, const IPt& p) {
+        bool in = false;
+        for (size_t i = 0; i + 1 < rg.size(); i++) { const IPt& a = rg[i]; const IPt& b = rg[i + 1];
+            long c = cross(a, b, p);
+            if (c == 0 && std::min(a.x, b.x) <= p.x && p.x <= std::max(a.x, b.x) && std::min(a.y, b.y) <= p.y && p.y <= std::max(a.y, b.y)) return 0;
+            if ((a.y <= p.y && p.y < b.y && c > 0) || (b.y <= p.y && p.y < a.y && c < 0)) in = !in; }
+        return in ? 1 : -1; }
+    // lattice points strictly inside a polygon (shell minus closed holes)
+    std::vector<IPt> interiorPoints(const GElem& poly) {
+        std::vector<IPt> v; if (poly.kind != 2 || poly.empty || poly.rings.empty()) return v;
+        long x0 = 1 << 30, x1 = -(1 << 30), y0 = x0, y1 = x1;
+        for (auto& p : poly.rings[0]) { x0 = std::min(x0, p.x); x1 = std::max(x1, p.x); y0 = std::min(y0, p.y); y1 = std::max(y1, p.y); }
+        for (long x = x0; x <= x1; x++) for (long y = y0; y <= y1; y++) { IPt p{x, y};
+            if (locate(poly.rings[0], p) != 1) continue; bool ok = true;
+            for (size_t h = 1; h < poly.rings.size(); h++) if (locate(poly.rings[h], p) >= 0) { ok = false; break; }
+            if (ok) v.push_back(p); }
+        return v; }
+
+    // valid variations that must not change any answer: ring direction, a repeated vertex
+    void vary(std::vector<IPt>& rg, bool closed) {
+        if (closed && r.chance(50)) { std::reverse(rg.begin(), rg.end()); cnt("ring_clockwise"); }
+        if (rg.size() >= 2 && r.chance(12)) { size_t i = r.below(rg.size()); rg.insert(rg.begin() + (long) i, rg[i]); cnt("repeated_vertex"); }
+    }
+    std::vector<IPt> ring() { auto rg = ring0(); vary(rg, true); return rg; }
+    std::vector<IPt> ring0() {
         for (int tries = 0; tries < 20; tries++) {
             int mode = (int) r.below(100);
             if (mode < 20) { long x0 = r.range(0, span - 1), y0 = r.range(0, span - 1), x1 = r.range((int) x0 + 1, span), y1 = r.range((int) y0 + 1, span);
@@ -100,11 +126,12 @@ struct GridGen {
     GElem polygon() {
         for (int tries = 0; tries < 12; tries++) {
             GElem e; e.kind = 2; e.rings.push_back(ring());
-            if (r.chance(30)) {                                   // holes: small rings, possibly touching the shell at a vertex
-                int nh = r.range(1, 2); int saved = contactPct; auto savedPool = pool;
-                for (auto& p : e.rings[0]) pool.push_back(p); contactPct = std::max(contactPct, 25);
-                for (int i = 0; i < nh; i++) { std::vector<IPt> ps; for (int j = 0; j < 3; j++) ps.push_back(rpt()); auto hl = hull(ps); if (!hl.empty()) e.rings.push_back(hl); }
-                contactPct = saved; pool = savedPool;
+            if (r.chance(35)) {                                   // holes: small rings of interior lattice points, sometimes touching the shell at a vertex
+                int nh = r.range(1, 2); auto inner = interiorPoints(e);
+                for (int i = 0; i < nh && inner.size() >= 3; i++) { std::vector<IPt> ps;
+                    for (int j = 0; j < 3; j++) ps.push_back(inner[r.below(inner.size())]);
+                    if (r.chance(20)) ps[0] = e.rings[0][r.below(e.rings[0].size())];
+                    auto hl = hull(ps); if (!hl.empty()) { vary(hl, true); e.rings.push_back(hl); } }
             }
             if (validElem(e)) { if (e.rings.size() > 1) cnt("polygon_with_holes"); return e; }
             GElem e2; e2.kind = 2; e2.rings.push_back(e.rings[0]); if (validElem(e2)) return e2;
@@ -136,6 +163,20 @@ struct GridGen {
             for (size_t i = 0; i + 1 < rg.size(); i++) { long dx = rg[i + 1].x - rg[i].x, dy = rg[i + 1].y - rg[i].y; long g = gcdl(dx, dy);
                 if (g > 0) { poolEdges.push_back({rg[i], rg[i + 1]}); for (long t = 1; t < g; t++) pool.push_back(IPt{rg[i].x + dx / g * t, rg[i].y + dy / g * t}); } } }
     }
+    // partner mode "strictly inside": every new vertex is a lattice point strictly inside one polygon of `a`
+    // (no boundary contact) — exercises containment paths that never see a segment intersection
+    bool setPartnerInterior(const GGeom& a) {
+        for (auto& e : a.elems) if (e.kind == 2 && !e.empty) { auto in = interiorPoints(e); if (in.size() >= 3) { pool = in; poolEdges.clear(); contactPct = 100; cnt("partner_strictly_inside"); return true; } }
+        return false; }
+    // partner mode "swallow a hole": the new geometry is a polygon around a hole of `a`, inside its shell
+    bool holeSwallower(const GGeom& a, GGeom& out) {
+        for (auto& e : a.elems) if (e.kind == 2 && !e.empty && e.rings.size() > 1) {
+            auto& h = e.rings[1 + r.below(e.rings.size() - 1)];
+            long x0 = 1 << 30, x1 = -(1 << 30), y0 = x0, y1 = x1; for (auto& p : h) { x0 = std::min(x0, p.x); x1 = std::max(x1, p.x); y0 = std::min(y0, p.y); y1 = std::max(y1, p.y); }
+            GElem q; q.kind = 2; q.rings.push_back({{x0 - 1, y0 - 1}, {x1 + 1, y0 - 1}, {x1 + 1, y1 + 1}, {x0 - 1, y1 + 1}, {x0 - 1, y0 - 1}});
+            out = GGeom{}; out.container = 0; out.elems.push_back(q); cnt("partner_swallows_hole"); return true; }
+        return false; }
+
     Xform xform() { Xform t; t.sym = (int) r.below(8);
         switch (r.below(4)) { case 0: break; case 1: t.tx = r.range(-100, 100); t.ty = r.range(-100, 100); break;
                               case 2: t.tx = r.range(-30000000, 30000000); t.ty = r.range(-30000000, 30000000); break;
